@@ -53,6 +53,17 @@ func coAcct(r *rand.Rand) string {
 	return coWord(r)
 }
 
+// coAddr: what PAM and sshd put into addr= - an IPv4 or IPv6 address, or a host name
+func coAddr(r *rand.Rand) string {
+	switch r.Intn(4) {
+	case 0:
+		return "h" + coWord(r)
+	case 1:
+		return fmt.Sprintf("fe80::%x:%x", r.Intn(65536), r.Intn(65536))
+	}
+	return fmt.Sprintf("%d.%d.%d.%d", 1+r.Intn(250), r.Intn(256), r.Intn(256), 1+r.Intn(250))
+}
+
 func coID(r *rand.Rand) int {
 	if r.Intn(2) == 0 {
 		return []int{0, 1000, 1001}[r.Intn(3)]
@@ -111,9 +122,9 @@ func randomGroup(r *rand.Rand) ([]recSpec, string) {
 		types := []int{1100, 1101, 1103, 1104, 1105, 1106, 1108, 1112, 1113, 1114, 1116, 1123, 1130, 1131, 1006, 1305, 1400, 1107, 1326, 1327,
 			1700, 1701, 1702, 2100, 2111, 2200, 2300, 2400, 2500, 1800, 1200, 1300, 1309, 1302, 1307, 1319, 1124, 1334, 2000, 65000, 1403}
 		t := types[r.Intn(len(types))]
-		body := fmt.Sprintf(`pid=%d uid=%d auid=%d ses=%d subj=u_%s:r_%s:t_%s:s0-s0:c0.c1023 msg='op=%s acct="%s" exe="/usr/sbin/%s" hostname=%s addr=%d.%d.%d.%d terminal=%s res=%s'%s`,
+		body := fmt.Sprintf(`pid=%d uid=%d auid=%d ses=%d subj=u_%s:r_%s:t_%s:s0-s0:c0.c1023 msg='op=%s acct="%s" exe="/usr/sbin/%s" hostname=%s addr=%s terminal=%s res=%s'%s`,
 			1+r.Intn(30000), coID(r), []int{0, 1000, 4294967295}[r.Intn(3)], 1+r.Intn(500), coWord(r), coWord(r), coWord(r), coWord(r), coAcct(r),
-			coWord(r), coWord(r), r.Intn(256), r.Intn(256), r.Intn(256), r.Intn(256), coWord(r), []string{"success", "failed"}[r.Intn(2)], extras(r, r.Intn(3)))
+			coWord(r), coWord(r), coAddr(r), coWord(r), []string{"success", "failed"}[r.Intn(2)], extras(r, r.Intn(3)))
 		switch t {
 		case 1300:
 			body = syscallBody(r, "open", 0)
